@@ -91,6 +91,7 @@ def run(ctx, w):
         ctx.violation("M1", "floor:marks", "only %d dirty-mark sites found (19 confirmed by reading, floor 10) by reading" % ctx.extra["mark_sites"])
 
     rows_rules(ctx, w, S, direct_mut, direct_mark)
+    mark_total(ctx, w, S)
     report_rules(ctx, w, S)
 
 
@@ -229,3 +230,22 @@ def report_rules(ctx, w, S):
                 ctx.check(not vb.path_exists(rs.point, pt), "M4", api + ":order:" + cdef,
                           "%s runs its per-character closure after the changes were collected" % api, loc=w.stmt_loc(api, pt))
     ctx.floor("M4", 8, "report-and-clear obligations")
+
+
+def mark_total(ctx, w, S):
+    """M6: a dirty mark is unconditional: every path through a marking routine of the dirty set writes the flag storage
+    (no "already marked" shortcut whose memory could outlive the flags)."""
+    E = w.E
+    ctx.rule("M6", "every path through a marking routine of the dirty set stores the flag(s): marking is never skipped on the strength of remembered state")
+    flds = [f["name"] for f in w.facts.struct_fields(S.dl_ty) or [] if f["ty"]["s"].startswith("alloc::vec::Vec<bool>")]
+    if len(flds) != 1:
+        ctx.missing_anchor("M6", "flag vector of the dirty set")
+        return
+    fl = flds[0]
+    for fn in sorted(S.dl_mark):
+        b = w.body(fn)
+        pts = {pt for pt, ps in E.stmt_writes[fn].items() if any(p[:2] == ("arg1", fl) for p in ps)}
+        pts |= {cs.point for cs in E.call_sites(fn) if any(p[:2] == ("arg1", fl) for p in cs.W)}
+        ok = bool(pts) and b.every_path_to_return_hits((0, 0), pts, include_start=True)
+        ctx.check(ok, "M6", fn, "%s can return without storing the flag: a row that changed stays unreported when the shortcut's memory is stale" % fn, loc=w.fn_loc(fn), sample={"fn": fn, "flag_writes": len(pts)})
+    ctx.floor("M6", 2, "marking routines")
